@@ -20,8 +20,10 @@ Val == [ neg1   |-> Amt(TRUE, 0, 0, 1),
          i64max |-> I64Max,
          i64min |-> I64Min ]
 ValNames == DOMAIN Val
-\* prevouts: 0 = the null outpoint, 1..2 = two ordinary outpoints
-Prevouts == 0..2
+\* prevouts: 0 = the null outpoint; 1, 2 = two outputs of the SAME transaction; 3 = an output of another transaction
+\* (duplicate detection must compare whole outpoints: equal txids with different indexes are not duplicates, and a duplicate
+\* separated by a sibling output of the same transaction still is one)
+Prevouts == 0..3
 \* non-witness serialized size: "small", or exactly 999 999 / 1 000 000 / 1 000 001 bytes (x4 vs 4 000 000)
 SizeClasses == {"small", "lim_m1", "lim", "lim_p1"}
 CbLens == {0, 1, 2, 100, 101}          \* scriptSig length of input 1 (matters for a coinbase)
